@@ -42,7 +42,7 @@ func (c11) Rule() string {
 func (c11) Exhaustive(string) string { return "" }
 func (c11) Runs(tier string) int64 {
 	if tier == "thorough" {
-		return 30000
+		return 12000
 	}
 	return 640
 }
